@@ -7,7 +7,7 @@ use std::borrow::Borrow;
 use std::fmt::Debug;
 use std::fs::read;
 use std::io::ErrorKind as IoErrorKind;
-use std::path::{Path, PathBuf};
+use std::path::{Component, Path, PathBuf};
 use std::sync::Arc;
 
 /// A resource loader using local versions of the resources.
@@ -83,6 +83,17 @@ impl Loader for LocalLoader {
         for (ns, path) in &self.caches {
             if iri.starts_with(ns.as_str()) {
                 let subpath = Path::new(&iri[ns.len()..]);
+                // never leave the configured directory:
+                // '..' would climb out of it, and a root (or prefix) would replace it
+                if subpath
+                    .components()
+                    .any(|c| !matches!(c, Component::Normal(_) | Component::CurDir))
+                {
+                    return Err(LoaderError::UnsupportedIri(
+                        iri_buf(iri),
+                        "path must not leave the local directory".into(),
+                    ));
+                }
                 let resource_path: PathBuf = path.join(subpath);
                 return match read(resource_path) {
                     Ok(data) => Ok((data, self.ctype(iri))),
